@@ -185,6 +185,20 @@ def check_unconvertible(ctx, xctx, case, clazz, text):
     return n
 
 
+def _tree(text):
+    """The document as a tree of (name, attributes without xsi:type, text, children, tail); white space between the
+    children of element-only content and the choice of the xsi:type marker's built-in type are not compared."""
+    import xml.etree.ElementTree as ET
+
+    def walk(e):
+        kids = [walk(k) for k in e]
+        strip = (lambda t: (t or "").strip()) if kids else (lambda t: t or "")
+        attrs = sorted((k, v) for k, v in e.attrib.items() if k != "{http://www.w3.org/2001/XMLSchema-instance}type")
+        return (e.tag, attrs, strip(e.text), kids, (e.tail or "").strip())
+
+    return walk(ET.fromstring(text))
+
+
 def run_matrix(ctx, want: str):
     xctx = XmlContext()
     n = 0
@@ -228,6 +242,10 @@ def run_matrix(ctx, want: str):
                     except Exception as ex:  # noqa: BLE001
                         ctx.violation(f"serializing the object parsed from a canonical form failed ({kind} / {shape}, {wname}): {type(ex).__name__}: {ex}", dict(info, handler=h))
                         continue
+                    # what is written says what was read: same elements, attributes, character data, in order
+                    if _tree(again) != _tree(text):
+                        ctx.violation(f"canonical {kind} / {shape} ({pos}): the parsed object is written as another document ({wname} writer, {h} handler): {text} -> {again}",
+                                      dict(info, handler=h, writer=wname, serialized=again))
                     back = parse(xctx, again, clazz, h, ParserConfig())
                     if not same(out, back):
                         ctx.violation(f"object parsed from canonical {kind} / {shape} ({pos}) does not survive the round trip ({wname} writer, {h} handler): {show(out)} -> {again} -> {show(back)}",
